@@ -844,6 +844,7 @@ func ruleIdentUse(w *World, r *Report, pkg *ssa.Package, tag string) {
 // can cancel (xor, add); and an ordered list's digest input is not sorted.
 func ruleHashMove(w *World, r *Report, nt *nodeTypes) {
 	const rule = "R-HASHMOVE"
+	ruleHashNoArith(w, r, nt)
 	for _, t := range nt.names {
 		fn := nt.method(t, "hashCode")
 		cls := nt.classifyHash(fn, 0)
@@ -2157,4 +2158,189 @@ func ruleWholeContainer(w *World, r *Report, pkg *ssa.Package, tag, fAdd string)
 	if n < 3 {
 		r.Bad(rule, tag+":instance-floor", "-", fmt.Sprintf("only %d whole-array replacement sites found in the list/set/multiset diffs", n))
 	}
+}
+
+// ruleHashNoArith — package-wide clause of R-HASHMOVE: nowhere in the library
+// is a byte (or word) taken out of a digest fed into integer arithmetic. The
+// helpers that fold several digests into one (hashCodes.combine, identity
+// hashing) are not hashCode methods, so the per-method clause does not see
+// them; an xor/add fold there cancels equal members (two set keys with the
+// same value, two copies in a multiset) exactly like one inside hashCode.
+func ruleHashNoArith(w *World, r *Report, nt *nodeTypes) {
+	const rule = "R-HASHMOVE"
+	dig := nt.method(nt.names[0], "hashCode").Signature.Results().At(0).Type()
+	isDigest := func(t types.Type) bool {
+		if p, ok := t.Underlying().(*types.Pointer); ok {
+			t = p.Elem()
+		}
+		return types.Identical(t.Underlying(), dig.Underlying())
+	}
+	var fromDigest func(v ssa.Value, depth int) bool
+	fromDigest = func(v ssa.Value, depth int) bool {
+		if depth > 5 || v == nil {
+			return false
+		}
+		switch x := v.(type) {
+		case *ssa.UnOp:
+			if x.Op == token.MUL {
+				if ia, ok := x.X.(*ssa.IndexAddr); ok && isDigest(ia.X.Type()) {
+					return true
+				}
+				return false
+			}
+			return fromDigest(x.X, depth+1)
+		case *ssa.Index:
+			return isDigest(x.X.Type())
+		case *ssa.Convert:
+			return fromDigest(x.X, depth+1)
+		case *ssa.ChangeType:
+			return fromDigest(x.X, depth+1)
+		case *ssa.Phi:
+			for _, e := range x.Edges {
+				if fromDigest(e, depth+1) {
+					return true
+				}
+			}
+		case *ssa.BinOp:
+			return fromDigest(x.X, depth+1) || fromDigest(x.Y, depth+1)
+		case *ssa.Call:
+			// binary.LittleEndian.Uint64(d[:]) and friends
+			if strings.HasPrefix(calleeFullName(x), "(encoding/binary.") {
+				for _, a := range x.Call.Args {
+					if sl, ok := strip(a).(*ssa.Slice); ok && isDigest(sl.X.Type()) {
+						return true
+					}
+				}
+			}
+		}
+		return false
+	}
+	bad := ""
+	n := 0
+	for fn := range w.AllFunctions() {
+		if fnPkg(fn) != nt.pkg.Pkg || fn.Blocks == nil {
+			continue
+		}
+		n++
+		allInstrs(fn, func(in ssa.Instruction) {
+			bo, ok := in.(*ssa.BinOp)
+			if !ok {
+				return
+			}
+			switch bo.Op {
+			case token.XOR, token.ADD, token.SUB, token.MUL, token.AND, token.OR, token.SHL, token.SHR, token.AND_NOT, token.QUO, token.REM:
+			default:
+				return
+			}
+			bt, ok := bo.Type().Underlying().(*types.Basic)
+			if !ok || bt.Info()&types.IsInteger == 0 {
+				return
+			}
+			if fromDigest(bo.X, 0) || fromDigest(bo.Y, 0) {
+				bad = fmt.Sprintf("%s combines digest bytes with integer arithmetic (%s) at %s", fnName(fn), bo.Op, w.Pos(bo.Pos()))
+			}
+		})
+	}
+	r.Check(bad == "", rule, nt.tag+":no-arithmetic-on-digests", "-",
+		fmt.Sprintf("none of the %d functions of the package feeds bytes of a digest into integer arithmetic: digests are only moved, sorted, compared and re-hashed", n),
+		bad+": digests folded by arithmetic can cancel (equal members, permuted members), so different containers or identities hash alike")
+}
+
+// ruleArrayDispatch — R-ARRAYDISPATCH. A document holds arrays in two shapes:
+// the raw array the readers build, and the list/set/multiset views that
+// dispatch converts it to — and that every patch stores back into the document
+// it returns (so the child of an array is a list after the first hunk through
+// it). Code on the diff/patch/Equals side may therefore tell arrays apart only
+// after dispatch: a type test against the raw array type that does not also
+// cover all its dispatched views treats a document differently depending on
+// whether an earlier hunk (or an earlier Patch) has touched it. Scope: the
+// functions reachable by static calls from the named methods of the node
+// types, except dispatch itself.
+func ruleArrayDispatch(w *World, r *Report, pkg *ssa.Package, tag string, methods ...string) {
+	const rule = "R-ARRAYDISPATCH"
+	nt := newNodeTypes(w, pkg, tag)
+	disp := w.Func(pkg, "dispatch")
+	var raw types.Type
+	allInstrs(disp, func(in ssa.Instruction) {
+		if ta, ok := in.(*ssa.TypeAssert); ok && raw == nil {
+			if _, isSlice := ta.AssertedType.Underlying().(*types.Slice); isSlice {
+				raw = ta.AssertedType
+			}
+		}
+	})
+	if raw == nil {
+		r.Unk(rule, tag+":raw-array-type", "-", "dispatch does not test its argument against an array type")
+		return
+	}
+	views := map[string]bool{}
+	for _, t := range nt.names {
+		fn := nt.method(t, "Equals")
+		rt := fn.Params[0].Type()
+		if types.Identical(rt.Underlying(), raw.Underlying()) && !types.Identical(rt, raw) {
+			views[typeName(rt)] = true
+		}
+	}
+	seen := map[*ssa.Function]bool{}
+	var work []*ssa.Function
+	for _, t := range nt.names {
+		for _, m := range methods {
+			if fn := w.MethodOpt(pkg, t, m); fn != nil && fn.Blocks != nil && !seen[fn] {
+				seen[fn] = true
+				work = append(work, fn)
+			}
+		}
+	}
+	n := 0
+	var bad []string
+	for len(work) > 0 {
+		f := work[0]
+		work = work[1:]
+		if f == disp {
+			continue
+		}
+		n++
+		withClosures(f, func(g *ssa.Function) {
+			// asserted types per tested value
+			tested := map[ssa.Value]map[string]bool{}
+			hasRaw := map[ssa.Value]token.Pos{}
+			allInstrs(g, func(in ssa.Instruction) {
+				switch x := in.(type) {
+				case *ssa.TypeAssert:
+					v := strip(x.X)
+					if tested[v] == nil {
+						tested[v] = map[string]bool{}
+					}
+					tested[v][typeName(x.AssertedType)] = true
+					if types.Identical(x.AssertedType, raw) {
+						hasRaw[v] = x.Pos()
+					}
+				case ssa.CallInstruction:
+					sf := staticCallee(x)
+					if sf == nil || sf.Blocks == nil || fnPkg(sf) != pkg.Pkg || seen[sf] {
+						return
+					}
+					if sf.Parent() != nil {
+						return
+					}
+					seen[sf] = true
+					work = append(work, sf)
+				}
+			})
+			for v, pos := range hasRaw {
+				all := true
+				for vw := range views {
+					if !tested[v][vw] {
+						all = false
+					}
+				}
+				if !all {
+					bad = append(bad, fmt.Sprintf("%s tests a document node against %s only (at %s)", fnName(g), typeName(raw), w.Pos(pos)))
+				}
+			}
+		})
+	}
+	sort.Strings(bad)
+	r.Check(len(bad) == 0, rule, tag+":arrays-told-apart-after-dispatch["+strings.Join(methods, ",")+"]", "-",
+		fmt.Sprintf("none of the %d functions reachable from the %s methods tests a node against the raw array type without its dispatched views %v", n, strings.Join(methods, "/"), sortedKeys(views)),
+		strings.Join(bad, "; ")+": an array that an earlier hunk or Patch has stored back as a list/set/multiset no longer takes this branch")
 }
